@@ -169,6 +169,8 @@ type Engine struct {
 	specPaths int
 	capVal    map[string]Val
 	boundedLoops map[string]bool
+	pureFn       map[*ssa.Function]bool
+	rebound      map[string]bool
 	genDeadline  time.Time
 	safetyOff    map[string]bool
 	globalNames map[int64]string
